@@ -9,7 +9,7 @@ import ast
 import hashlib
 import os
 
-from .values import ModuleVal, Frame, FuncVal, Unsupported, PyExc, MISSING, ClassVal, LOADING, register_global
+from .values import ModuleVal, Frame, FuncVal, Unsupported, PyExc, MISSING, ClassVal, LOADING, register_global, WRITTEN_GLOBALS, GLOBAL_OBJS
 
 
 class Unknown:
@@ -67,12 +67,19 @@ class Repo:
         m.frame = Frame({'$module': m, '__name__': name, '__file__': path})
         m.ns = m.frame.vars
         self.modules[name] = m
+        for fn in ast.walk(tree):
+            if isinstance(fn, (ast.FunctionDef, ast.AsyncFunctionDef)):
+                for st in ast.walk(fn):
+                    if isinstance(st, ast.Global):
+                        for nm in st.names:
+                            WRITTEN_GLOBALS.add((name, nm))
         LOADING[0] += 1
         try:
             self.exec_module(m)
         finally:
             LOADING[0] -= 1
         if name.startswith(self.pkg):
+            GLOBAL_OBJS[id(m.frame)] = ('%s.<module variables>' % name, m.frame)
             for k, v in list(m.ns.items()):
                 if k.startswith('$') or k.startswith('__'):
                     continue
